@@ -750,11 +750,11 @@ func (am AnchorMatrix) sanitizeOffsets() error {
 }
 
 func (am AnchorMatrix) Anchor(index, class int) Anchor {
-	if len(am.records) < index {
+	if len(am.records) <= index {
 		return nil
 	}
 	offsets := am.records[index].offsets
-	if len(offsets) < class {
+	if len(offsets) <= class {
 		return nil
 	}
 	offset := offsets[class]
